@@ -761,6 +761,16 @@ class ObjectDomain(LazyGenerators, EffectDomain):
                     frame2.caller = fr
                     return self._module_table(interp, al.name, st, frame2)
         if expr is None:
+            # NAME = b"".join / _b("").join: joining with that (constant) separator
+            for s_ in tree.body:
+                if isinstance(s_, ast.Assign) and len(s_.targets) == 1 and isinstance(s_.targets[0], ast.Name) and s_.targets[0].id == name and isinstance(s_.value, ast.Attribute) \
+                        and s_.value.attr == "join":
+                    sep = s_.value.value
+                    if isinstance(sep, ast.Call) and dotted(sep.func) in ("_b", "compat._b") and len(sep.args) == 1 and isinstance(sep.args[0], ast.Constant) and isinstance(sep.args[0].value, str):
+                        return [val(("partial", ("strmethod", "join"), (("const", sep.args[0].value.encode("latin-1")),), ()), st)]
+                    if isinstance(sep, ast.Constant) and isinstance(sep.value, (str, bytes)):
+                        return [val(("partial", ("strmethod", "join"), (("const", sep.value),), ()), st)]
+        if expr is None:
             # NAME = BaseException.__repr__ / object.__str__ ...: the builtin, called with the object as its argument
             for s_ in tree.body:
                 if isinstance(s_, ast.Assign) and len(s_.targets) == 1 and isinstance(s_.targets[0], ast.Name) and s_.targets[0].id == name and isinstance(s_.value, ast.Attribute) \
